@@ -18,11 +18,15 @@ from common import (CACHE, ToolError, build_harness, load_known, log, repo_state
                     write_evidence)
 
 PROP_GROUPS = {
-    "C01": ["store"], "C05": ["store"], "C06": ["store"], "C07": ["store"], "C08": ["store"],
-    "C09": ["store"], "C12": ["store"], "C20": ["store"],
+    "C01": ["store"], "C02": ["conc"], "C03": ["conc"], "C05": ["store"], "C06": ["store", "conc"],
+    "C07": ["store"], "C08": ["store"], "C09": ["store", "conc"], "C11": ["conc"], "C12": ["store"],
+    "C20": ["store"],
 }
 
 ASSUME = {
+    "conc": ["TLC's verdict on XsConcurrent holds for the constants of the MC_conc_*.cfg files (2 writers, <= 3 frames each, B, M <= 3)",
+             "schedules are explored at the granularity of the xs_verif gates; fjall and tokio internals are not gated",
+             "the observer uses only the order of events that are really ordered (returned-before-called, delivery order)"],
     "store": ["TLC's verdict on XsStore holds for the constants of the MC_store_*.cfg files",
               "virtual clock and gated collector (cfg xs_verif) stand in for wall-clock time and thread timing",
               "topics, metas and contents are sampled from concretisation families; the model treats them as uninterpreted"],
